@@ -30,7 +30,8 @@ Section KnHeap.
   | HFit (aK : nat) (aw : option nat)        (* fit(K, sample_weight=w) with the caller's arrays *)
   | HTransform (aK : nat)                    (* transform(K)              (copy=True) *)
   | HTransformIP (aK : nat)                  (* transform(K, copy=False): writes into array aK *)
-  | HFitTransform (aK : nat) (aw : option nat).
+  | HFitTransform (aK : nat) (aw : option nat)
+  | HFitTransformIP (aK : nat) (aw : option nat).   (* fit_transform(K, w, copy=False) *)
 
   Notation kstep := (kn_step T nrows ncols norm_w fit_num tr_num).
 
@@ -43,13 +44,15 @@ Section KnHeap.
     | HTransform aK => Some (OTransform (h aK))
     | HTransformIP aK => Some (OTransform (h aK))
     | HFitTransform aK aw => Some (OFitTransform (h aK) (hrd h aw))
+    | HFitTransformIP aK aw => Some (OFitTransform (h aK) (hrd h aw))
     end.
 
   (* addresses a call reads *)
   Definition kh_reads (op : kh_op) : list nat :=
     match op with
     | HWrite _ _ => [] | HSet _ _ => []
-    | HFit aK aw | HFitTransform aK aw => aK :: match aw with Some a => [a] | None => [] end
+    | HFit aK aw | HFitTransform aK aw | HFitTransformIP aK aw =>
+        aK :: match aw with Some a => [a] | None => [] end
     | HTransform aK | HTransformIP aK => [aK]
     end.
 
@@ -63,6 +66,15 @@ Section KnHeap.
         | ROut _, Some a =>
             (o1, hupd h aK (cen_num (o_center T o) (a_sw T a) (a_rows T a) (a_all T a) (h aK)), Some r)
         | _, _ => (o1, h, Some r)            (* rejected before anything is written *)
+        end
+    | HFitTransformIP aK aw =>
+        (* fit reads (and copies) the values; the transform that follows then works in the caller's
+           array with the attributes just fitted *)
+        let (o1, r) := kstep o (OFitTransform (h aK) (hrd h aw)) in
+        match r, o_attrs T o1 with
+        | ROut _, Some a =>
+            (o1, hupd h aK (cen_num (o_center T o1) (a_sw T a) (a_rows T a) (a_all T a) (h aK)), Some r)
+        | _, _ => (o1, h, Some r)
         end
     | _ => match kh_view h op with
            | Some k => let (o1, r) := kstep o k in (o1, h, Some r)
@@ -92,14 +104,9 @@ Section KnHeap.
     end.
 End KnHeap.
 Arguments HWrite {T}. Arguments HSet {T}. Arguments HFit {T}. Arguments HTransform {T}.
-Arguments HTransformIP {T}. Arguments HFitTransform {T}.
+Arguments HTransformIP {T}. Arguments HFitTransform {T}. Arguments HFitTransformIP {T}.
 
 (* ---- binary64 instantiation ------------------------------------------------------------- *)
 From Coq Require Import PrimFloat.
 From Verif Require Import MExp KernelNorm.
-Definition f_cen_num (c : bool) (sw : option fmat) (rows all Kt : fmat) : fmat :=
-  let n := f_ncols Kt in
-  let cfg := KnCfg c true (has_w sw) in
-  eval_f (kn_env [] (opt_w sw) Kt rows all [] [] [] [] [])
-         (kn_centered cfg n (kKt n (length Kt)) (kRows n) kAll).
 Definition fkh_run := kh_run fmat f_nrows f_ncols f_norm_w f_fit_num f_tr_num f_cen_num.
